@@ -40,3 +40,11 @@ package header
 //@ assigns \nothing
 //@ loop 0 invariant 0 <= i && i <= len(s)
 //@ loop 0 invariant 0 <= n && n < d && 1 <= d && d <= 10 * maxQualityDenominator
+
+//@ spec goodSpecs(specs) := forall k int :: 0 <= k && k < len(specs) ==> specs[k].Q >= 0 && specs[k].Value != ""
+
+//@ func ParseAccept
+//@ ensures [Q] goodSpecs(result)
+//@ assigns \nothing
+//@ loop 0 invariant goodSpecs(specs) && (specs == nil || fresh(specs))
+//@ loop 1 invariant goodSpecs(specs) && (specs == nil || fresh(specs))
